@@ -33,6 +33,35 @@ CLAIMED = {
         engine="E-CONT", design_ref="6/C08"),
 }
 
+CLAIMED["C01"] = dict(
+    level="exploration",
+    text="Seeded search over schedules and configurations of whole TaskBasedIonizationSimulation runs executed "
+         "inside the simulator (fibers instead of OpenMP threads, every AtomicValue operation a scheduling point). "
+         "Every packet carries an identity; an online ledger checks launched == requested == terminated exactly "
+         "once with a legal cause, the code's own counter, task/packet ownership, bounded liveness (no progress "
+         "event for the step budget, second half under a fair policy) and that no buffer, task, queue entry or "
+         "outgoing buffer survives an iteration. Sampling: evidence, not proof.",
+    note="pool/queue capacities generated above any possible need (the property's premise); sequential "
+         "consistency at AtomicValue granularity; runs that still make progress after the total point cap "
+         "are abandoned as inconclusive and counted",
+    technique="deterministic simulation: seeded fiber scheduler + packet-identity ledger over recorded history",
+    engine="E-ION", design_ref="6/C01")
+CLAIMED["C03"] = dict(
+    level="exploration",
+    text="Same simulated runs as C01 with a reference model: every launched or re-emitted packet segment is "
+         "recorded (hooks H4/H5) and re-traced sequentially through one undivided DensitySubGrid holding the same "
+         "cell contents (harness-side periodic wrapping); per-cell estimators after folding the copies, "
+         "absorbed/escaped outcome and absorption position must agree within a round-off budget derived per "
+         "packet; every hand-over is checked against the geometry (opposite element, geometric neighbour or a "
+         "copy of it, same position on the entry boundary); neighbour tables of originals and copies are checked "
+         "against the layout.",
+    note="errors common to DensitySubGrid::interact on any grid cancel (that is C02); tolerance = 1e-9 of the "
+         "grid maximum plus per-packet allowances for optical-depth round-off in transparent cells and for "
+         "packets nearly parallel to walls; packets starting within round-off of an open box wall follow the "
+         "system's decision",
+    technique="deterministic simulation: refinement of recorded packet history against a single-block reference model",
+    engine="E-ION", design_ref="6/C03")
+
 PENDING = {}
 
 
@@ -87,6 +116,8 @@ def main():
         "engines": [
             {"name": "E-CONT", "path": "engines/econt.cpp", "serves_properties": ["C08"],
              "kind_free_text": "client fibers on the real scheduler containers, synthetic workload"},
+            {"name": "E-ION", "path": "engines/eion.cpp", "serves_properties": ["C01", "C03"],
+             "kind_free_text": "whole TaskBasedIonizationSimulation runs from generated parameter files inside the simulator"},
         ],
         "checks": checks,
         "not_applicable": na,
